@@ -594,6 +594,9 @@ def norm(e):
         args = tuple(norm(a) for a in e[2])
         if e[1].endswith("FromResidual::from_residual") and args and args[0][0] == "residual":
             return ("errprop", args[0][1])
+        if e[1].endswith("FromResidual::from_residual") and args and args[0][0] == "phi" and args[0][1] and all(x[0] == "residual" for x in args[0][1]):
+            # several `?` sharing one error exit (an unrolled loop body): the error of whichever failed is propagated
+            return ("errprop", mkphi(tuple(x[1] for x in args[0][1])))
         return ("call", e[1], args) + e[3:]
     if k == "agg":
         return ("agg", e[1], e[2], tuple((f, norm(a)) for f, a in e[3]))
